@@ -128,6 +128,14 @@ def native_cases():
         event_id: int
         label_text: str = 'l'
     base = [
+        # typed values as KEYS of typed mappings (the key is serialised by the key type and read back by it)
+        (t.Dict[decimal.Decimal, str], {decimal.Decimal('0.1'): 'reduced', decimal.Decimal('0.25'): 'full', decimal.Decimal('2.675'): 'x'}, 'Decimal keys'),
+        (t.Dict[fractions.Fraction, int], {fractions.Fraction(1, 3): 1, fractions.Fraction(2): 2}, 'Fraction keys'),
+        (t.Dict[t.Union[int, str], int], {'10': 1, 10: 2, 'true': 3, '1.5': 4, 'null': 5}, 'int|str keys'),
+        (t.Dict[t.Union[str, int], int], {'10': 1, 10: 2}, 'str|int keys'), (t.Dict[float, int], {0.1: 1, 2.5: 2}, 'float keys'),
+        (t.Dict[t.Optional[int], int], {None: 0, 1: 1}, 'optional-int keys'), (t.Dict[bool, int], {True: 1, False: 0}, 'bool keys'),
+        (t.Dict[datetime.date, int], {datetime.date(2020, 1, 2): 1}, 'date keys'), (t.Dict[t.Tuple[int, int], str], {(1, 2): 'p'}, 'tuple keys'),
+        (t.Dict[str, t.Dict[decimal.Decimal, int]], {'k': {decimal.Decimal('0.1'): 1}}, 'nested Decimal keys'),
         (Mode, Mode.SLOW, 'str-enum'), (Prio, Prio.HIGH, 'int-enum'), (Ratio, Ratio.HALF, 'float-enum'), (t.Optional[Mode], Mode.FAST, 'optional str-enum'),
         (t.Union[Mode, str], Mode.FAST, 'str-enum|str'), (Task, Task.make_unchecked(Mode.SLOW, Prio.HIGH, [Mode.FAST], {'k': Prio.LOW}), 'dataclass with mixin-enum fields'),
         (Acc, Acc(7), 'in_names without the Python name'), (Ev, Ev(3), 'in_rename only'),
